@@ -590,7 +590,17 @@ class TypeEnv:
             return self._type_of_call(e)
         if isinstance(e, (ast.List, ast.ListComp)):
             if isinstance(e, ast.List) and e.elts:
-                return ('list', self.type_of(e.elts[0]))
+                first = e.elts[0]
+                if isinstance(first, ast.Starred):
+                    # [*xs, ..]: the elements of xs
+                    t = self.type_of(first.value)
+                    return ('list', t[1]) if t[0] in ('list', 'set') else ('list', UNK)
+                return ('list', self.type_of(first))
+            if isinstance(e, ast.ListComp) and len(e.generators) == 1 and isinstance(e.elt, ast.Name) \
+                    and isinstance(e.generators[0].target, ast.Name) and e.elt.id == e.generators[0].target.id:
+                t = self.type_of(e.generators[0].iter)       # [x for x in xs (if ..)]: a filtered copy
+                if t[0] in ('list', 'set'):
+                    return ('list', t[1])
             return ('list', UNK)
         if isinstance(e, (ast.Dict, ast.DictComp)):
             return ('dict', UNK, UNK)
